@@ -217,7 +217,7 @@ def expected_maps(fmt, given_opts, given_args):
 
 
 @st.composite
-def line_st(draw, fmt, structured=False):
+def line_st(draw, fmt, structured=False, omit=None, options_after_names=False, allowed_options=None):
     """A meaning for fmt and one spelling of it. Returns a dict with 'tokens', 'expect', 'classes' and the
     structured 'units' (used by the C02 fault mutations)."""
     classes = set()
@@ -226,6 +226,8 @@ def line_st(draw, fmt, structured=False):
     units = []  # {"kind": "opt", "tokens": [...], "long":..., "value": typed, "bare_optional": bool}
     excluded_unspecified = 0
     for o in opts:
+        if allowed_options is not None and o["long"] not in allowed_options:
+            continue
         if not draw(st.integers(0, 4 if o["mode"] == "none" else 1)):
             continue
         if o["mode"] == "none":
@@ -319,7 +321,11 @@ def line_st(draw, fmt, structured=False):
     # positionals: command names, then argument values
     names = fmt_names(fmt)
     n_given = len(names)
-    if names and draw(st.integers(0, 2)) == 0:
+    if omit is not None:
+        n_given = len(names) - omit
+        if omit:
+            classes.add("omitted-command-names")
+    elif names and draw(st.integers(0, 2)) == 0:
         n_given = draw(st.integers(0, len(names) - 1))
         classes.add("omitted-command-names")
     pos = []
@@ -371,7 +377,7 @@ def line_st(draw, fmt, structured=False):
         sep = draw(st.integers(min(lo, first_protected), first_protected))
         classes.add("protected-positional")
     elif draw(st.integers(0, 3)) == 0:
-        sep = draw(st.integers(0, len(pos)))
+        sep = draw(st.integers(len([p for p in pos if p["kind"] == "name"]) if options_after_names else 0, len(pos)))
     head = pos if sep is None else pos[:sep]
     tail = [] if sep is None else pos[sep:]
     if sep is not None:
@@ -379,7 +385,8 @@ def line_st(draw, fmt, structured=False):
         if tail:
             classes.add("separator-tail")
     # interleave option units among the head positionals
-    slots = sorted(draw(st.lists(st.integers(0, len(head)), min_size=len(spelled), max_size=len(spelled))))
+    first_slot = min(len([p for p in head if p["kind"] == "name"]), len(head)) if options_after_names else 0
+    slots = sorted(draw(st.lists(st.integers(first_slot, len(head)), min_size=len(spelled), max_size=len(spelled))))
     seq = []
     si = 0
     for i in range(len(head) + 1):
